@@ -44,6 +44,10 @@ TEXT = {
    text='Contract proof over all descriptor values, flag states, sizes and message flags on the 15 real shims of src/fiber_io.c (read readv recv recvfrom recvmsg write writev send sendto sendmsg accept connect close fcntl ioctl + should_block, setup_socket) against an abstract kernel behind the fibershim_* pointers (any POSIX-allowed result) and event-layer contracts; retry loops closed by loop contracts: every table access in bounds for negative / out-of-range descriptors; invalid descriptor = kernel error return, no wait; arguments forwarded, result of the last kernel call returned, no kernel call after data moved; blocking mode never returns EAGAIN unless closed meanwhile; O_NONBLOCK/FIONBIO/MSG_DONTWAIT never wait; waits for the right direction; close detaches waiters once and clears flags. Three genuine defects found on the pinned tree (D2a out-of-bounds on invalid descriptors, D2b non-blocking descriptors still waited, D2c accept returned EAGAIN to blocking callers), each reproduced natively, fixed by its own fix: commit and recorded as fixed.',
    note='Kernel behaviour abstracted (any POSIX-allowed result; descriptors outside the table fail with EBADF; accept returns descriptors inside the table); fiber_wait_for_event / fiber_fd_closed by contract; blocking mode of the observed descriptor not changed concurrently; readiness delivery by epoll not modelled (liveness of the wake-up is out of reach).',
    technique='CBMC harness-mode contract proof with loop contracts on woven real code, abstract kernel stubs, all-int descriptor quantification', ref='5 C08, 9 D2a-c'),
+ 'C09': dict(
+   text='Contract proof on the real fiber_sleep (all uint32 seconds/useconds, any tick count): the published node has wake_time >= tick-count-under-lock + seconds*1000 + ceil(useconds/1000) without wrap-around, is complete (waiter set, fiber WAITING) and in the tree before the switch, everything under sleep_spinlock which is released only through spinlock_to_unlock; the libc shims sleep/usleep/nanosleep never hand fiber_sleep a shorter duration; fiber_fd_closed is memory-safe for every int descriptor. Bounded stand-in through the real fiber_event_wake_sleepers + waiter_insert + waiter_remove_less_than for every tree of <= 3 sleepers (4 thorough), symbolic keys and clock: only sleeping fibers are scheduled, each once, only after their tick has passed, every due one is woken, and - with a scheduler contract that releases the sleeper\'s stack-resident node - the waker never touches a node after scheduling its fiber. Two genuine defects found on the pinned tree (D3a use of the node after scheduling, D3b 32-bit duration overflow), fixed by fix: commits and recorded as fixed.',
+   note='Tick >= 1 ms (it is 5 ms); tick counter < 2^62; nanosleep tv_sec fits uint32; spinlock/yield/scheduler by contract; BST induction out of reach (tree-level clauses bounded, labelled); fiber_sleep proved with waiter_insert on an empty tree (the arithmetic is independent of the tree); the arithmetic obligation needs the CaDiCaL back end (MiniSat times out).',
+   technique='CBMC harness-mode contract proof on woven real code (CaDiCaL for the duration arithmetic), bounded stand-in for the sleeper tree', ref='5 C09, 9 D3a D3b'),
 }
 NOT_YET = 'check not built yet at this commit (DESIGN.md section 5 describes the planned contracts)'
 checks, na = [], []
@@ -72,6 +76,6 @@ m = dict(
                   kind_free_text='contract-based deductive verification: clang-AST weaver + goto-cc + goto-instrument (DFCC function contracts, loop contracts) + cbmc 6.11 SAT back end; native replay of counterexample tapes with gcc/ASan')],
     checks=checks,
     not_applicable=na,
-    notes='Fix commits in /repo (unguarded, see known_findings.jsonl): 8370b08 (D1, C10), 20d019e (D2a, C08), cae670e (D2b, C08), 5c5f112 (D2c, C08). See DESIGN.md. Exit codes of ./check: 0 held (KNOWN-FINDING lines possible), 1 VIOLATION, 2 undecided (tool limit, never a verdict).')
+    notes='Fix commits in /repo (unguarded, see known_findings.jsonl): 8370b08 (D1, C10), 20d019e (D2a, C08), cae670e (D2b, C08), 5c5f112 (D2c, C08), 9b8a4ff (D3a, C09), e87fe6a (D3b, C09). See DESIGN.md. Exit codes of ./check: 0 held (KNOWN-FINDING lines possible), 1 VIOLATION, 2 undecided (tool limit, never a verdict).')
 json.dump(m, open(os.path.join(V, 'MANIFEST.json'), 'w'), indent=1)
 print('claimed', [c['property_id'] for c in checks], 'not_applicable', len(na))
